@@ -43,7 +43,7 @@ def _node(t, Str):
         cands = (ch[1],) if ch[1].sort().eq(Int) else ()
     elif k == z3.Z3_OP_UNINTERPRETED and ch:
         cands = tuple(c for c in ch if c.sort().eq(Int))
-        special = d.name() in ("joinr", "strip", "lstrip", "rstrip")
+        special = d.name() in ("joinr", "strip", "lstrip", "rstrip", "substr")
     n = (t, tuple(c.get_id() for c in ch), t.sort().eq(Str), cands, special, tuple(ch))
     _nodes[key] = n
     return n
